@@ -23,4 +23,36 @@ ArgsFull == ArgsQuick \cup
              { A("mem:double", "mem", B("double")), A("mem:float2", "mem", B("float2")),
                A("mem:C", "mem", Custom("C", 4, TRUE)), A("mem:char", "mem", B("char")),
                A("scalar:float", "scalar", B("float")), A("scalar:double", "scalar", B("double")) }
+
+\* ---- fixed-array parameters  T a[n] ---------------------------------------------------------------
+\* every scalar base spelling the type loader distinguishes; its element dtype is what
+\* occa::dtype::get<T>() gives for that C type (src/dtype/builtins.cpp): signedness is not distinguished,
+\* long and long long are both "long"
+Bases == {"char", "unsigned char", "short", "unsigned short", "int", "unsigned int", "long", "unsigned long",
+          "long long", "unsigned long long", "float", "double"}
+ElemOf(base) == CASE base \in {"char", "unsigned char"} -> "char"
+                  [] base \in {"short", "unsigned short"} -> "short"
+                  [] base \in {"int", "unsigned int"} -> "int"
+                  [] base \in {"long", "unsigned long", "long long", "unsigned long long"} -> "long"
+                  [] base = "float" -> "float"
+                  [] base = "double" -> "double"
+NStr(n) == CASE n = 1 -> "1" [] n = 2 -> "2" [] n = 4 -> "4"
+\* id:  ["const "]["td:"]<base>"["<n>"]"     (td: the base goes through  typedef <base> td_t;)
+ArrId(c, td, base, n) == (IF c THEN "const " ELSE "") \o (IF td THEN "td:" ELSE "") \o base \o "[" \o NStr(n) \o "]"
+ArraysOver(bases, sizes) ==
+  {P(ArrId(c, td, b, n), TRUE, c, Tuple(B(ElemOf(b)), n)) : c \in BOOLEAN, td \in BOOLEAN, b \in bases, n \in sizes}
+ArraysAll == ArraysOver(Bases, {1, 2, 4})
+\* the pointer forms  [const] [typedef'd] T *a  of the same spellings (thorough)
+PtrId(c, td, base) == (IF c THEN "const " ELSE "") \o (IF td THEN "td:" ELSE "") \o base \o "*"
+PointersAll == {P(PtrId(c, td, b), TRUE, c, B(ElemOf(b))) : c \in BOOLEAN, td \in BOOLEAN, b \in Bases}
+ArraysAndPointers == ArraysAll \cup PointersAll
+\* memories: the matching scalar types, the int-vs-long confusable ones, vector types of the same total
+\* size, the byte wildcard; plus a scalar and null (kind clauses)
+ArrayArgsAll == { A("mem:byte", "mem", B("byte")), A("mem:char", "mem", B("char")), A("mem:short", "mem", B("short")),
+                  A("mem:int", "mem", B("int")), A("mem:long", "mem", B("long")), A("mem:float", "mem", B("float")),
+                  A("mem:double", "mem", B("double")), A("mem:int2", "mem", B("int2")), A("mem:int4", "mem", B("int4")),
+                  A("mem:long2", "mem", B("long2")), A("mem:long4", "mem", B("long4")), A("mem:float2", "mem", B("float2")),
+                  A("mem:float4", "mem", B("float4")), A("mem:double2", "mem", B("double2")), A("mem:short2", "mem", B("short2")),
+                  A("mem:char4", "mem", B("char4")), A("scalar:int", "scalar", B("int")), A("null", "null", B("byte")) }
+NoArrays == {}
 =========================================================================
